@@ -284,6 +284,56 @@ theorem assign_idem (l : List (K × V)) (k : K) (v : V) :
 
 example : assign [(1, 10), (2, 20), (1, 11)] 1 (99 : Nat) = [(1, 99), (2, 20)] := by decide
 
+/-! ### `insert`: where the pairs go, for every index -/
+
+theorem normIndex_nat (n i : Nat) (h : i ≤ n) : normIndex n (i : Int) = i := by
+  unfold normIndex; simp only
+  split
+  · omega
+  · split <;> omega
+
+theorem normIndex_negv (n j : Nat) (hj : 0 < j) (h : j ≤ n) : normIndex n (-(j : Int)) = n - j := by
+  unfold normIndex; simp only
+  split
+  · split <;> omega
+  · omega
+
+/-- insert at an index within the list places the pairs, together and in order, before the element
+    that was at that index -/
+theorem splice_nonneg (pre post ps : List (K × V)) :
+    splice (pre ++ post) (pre.length : Int) ps = pre ++ ps ++ post := by
+  unfold splice
+  rw [normIndex_nat _ _ (by simp)]
+  simp
+
+/-- a negative index counts from the end … -/
+theorem splice_neg (pre post ps : List (K × V)) (hp : post ≠ []) :
+    splice (pre ++ post) (-(post.length : Int)) ps = pre ++ ps ++ post := by
+  unfold splice
+  rw [normIndex_negv _ _ (List.length_pos_iff.mpr hp) (by simp)]
+  simp
+
+/-- … and one below the start puts the pairs, still together and in order, at the front -/
+theorem splice_clamp_low (l ps : List (K × V)) (i : Int) (h : i + (l.length : Int) < 0) :
+    splice l i ps = ps ++ l := by
+  unfold splice normIndex
+  have h1 : i < 0 := by omega
+  simp [h1, h]
+
+/-- an index past the end appends -/
+theorem splice_clamp_high (l ps : List (K × V)) (i : Int) (h : (l.length : Int) < i) :
+    splice l i ps = l ++ ps := by
+  unfold splice normIndex
+  have h1 : ¬ i < 0 := by omega
+  simp [h1, h]
+
+theorem splice_length (l ps : List (K × V)) (i : Int) :
+    (splice l i ps).length = l.length + ps.length := by
+  unfold splice
+  have := normIndex_le l.length i
+  simp only [List.length_append, List.length_take, List.length_drop]
+  omega
+
 /-- Non-vacuity: a concrete history with duplicates inserted in the middle. -/
 example :
     (run (empty : OMD Nat Nat)
